@@ -79,6 +79,7 @@ class Decision:
         self.violations = []  # dicts: obligation, detail, replay
         self.known_lines = []
         self.undecided = []
+        self.callsite = []
 
     # -- helpers ---------------------------------------------------------------------
     def add_units(self, results):
@@ -123,6 +124,21 @@ class Decision:
                               "output": t["detail"]})
         return res
 
+    def add_callsite_witness(self, name, script, section, detail):
+        """A call-site obligation that is decided by a native witness (used for premises known to be false on
+        the unchanged tree: the witness is replayed on every run and reported through known_findings)."""
+        import subprocess
+        repo = os.environ.get("PYVC_REPO", "/repo")
+        out = subprocess.run([sys.executable, os.path.join(ROOT, "replay", script), repo, section], capture_output=True, text=True, timeout=900)
+        try:
+            data = json.loads(out.stdout.strip().splitlines()[-1])
+        except Exception:
+            self.undecided.append({"unit": name, "reason": "witness battery did not run: " + (out.stderr or out.stdout)[-300:]})
+            return
+        ok = not data["failures"]
+        self.callsite.append({"name": name, "ok": ok, "detail": detail, "failing": None if ok else
+                              {"battery": script, "first_failure": data["failures"][0], "replay_cmd": f".venv/bin/python replay/{script} {repo} {section}"}})
+
     def totals(self):
         obl = sum(len(u["obligations"]) for u in self.units) + len(self.lean)
         dis = sum(1 for u in self.units for o in u["obligations"] if o["status"] == "proved") + sum(1 for l in self.lean if l["ok"])
@@ -147,6 +163,10 @@ class Decision:
             if not l["ok"]:
                 failed.append(({"name": "lean"}, {"name": l["name"], "status": "refuted" if l.get("failed_proof") else "unknown",
                                                   "detail": l.get("output", "")[-3000:], "model": None, "kind": "lean", "path": None, "solver": "lean", "secs": l.get("secs", 0)}))
+        for c in self.callsite:
+            if not c["ok"]:
+                failed.append(({"name": "callsite"}, {"name": c["name"], "status": "refuted", "detail": c["detail"], "model": None, "kind": "callsite",
+                                                      "path": None, "solver": "native-witness", "secs": 0, "native": c["failing"]}))
         for b in self.bounded:
             if not b["ok"]:
                 ff = (b.get("failing") or {}).get("first_failure", {})
@@ -241,6 +261,7 @@ class Decision:
             "lean_theorems": [{"name": l["name"], "ok": l["ok"], "secs": round(l.get("secs", 0), 1)} for l in self.lean],
             "bounded_stand_ins": [{"name": b["name"], "ok": b["ok"], "cases": b.get("cases"), "bound": b.get("bound"), "note": "bounded: never counted as proved"} for b in self.bounded],
             "premises_from_other_properties": self.premises,
+            "call_site_obligations_decided_by_native_witness": [{"name": c["name"], "holds_on_witness": c["ok"], "detail": c["detail"]} for c in self.callsite],
             "assumed_contracts_used": models,
             "clauses_not_decided": self.not_decided,
             "extraction": EXTRACTION_DROPS,
